@@ -60,6 +60,7 @@ func run(c *props.Ctx) {
 	lap("quaternion")
 	k.rotationToLaw(vo, qo, rotate)
 	k.fromThetaLaw(vo, qo)
+	k.normGuards()
 	lap("rotationTo")
 	transform, _ := k.trsLaws(vo, qo, rotate)
 	lap("trs")
